@@ -64,6 +64,7 @@ theorem set_size (a : Array Val) (i : Nat) (v : Val) : (a.set! i v).size = a.siz
 
 theorem addOps_cfg (g : G) (c : Nat) (n : Int) : (addOps g c n).cfg = g.cfg := rfl
 theorem addOps_heap (g : G) (c : Nat) (n : Int) : (addOps g c n).heap = g.heap := rfl
+theorem ctxAttrs_heap (g : G) (h : Heap) (c : Nat) : ctxAttrs { g with heap := h } c = ctxAttrs g c := rfl
 
 
 theorem depth_pos (e : F) : 1 ≤ depth e := by
@@ -75,44 +76,51 @@ structure Ready (z : Bool) (g : G) (f : Frame) : Prop where
   div0 : g.cfg.ignoreDiv0 = z
   size : f.stack.size = stackSize
 
-theorem run_compile (z : Bool) (e : F) : ∀ (g : G) (f : Frame), CodeAt f.code f.pc (compile e) → Ready z g f →
+/-- closes `∀ c, ctxAttrs g' c = ctxAttrs g c` for a `g'` built from `g` by charges, heap updates and the runs of sub-expressions -/
+macro "ctx_tac" : tactic => `(tactic| first
+  | (intro c; simp only [ctxAttrs_addOps, ctxAttrs_heap, *])
+  | (intro c; rfl))
+
+theorem run_compile (z : Bool) (env : Nat) (e : F) : ∀ (g : G) (f : Frame), CodeAt f.code f.pc (compile e) → Ready z g f →
+    ctxAttrs g f.ctx = env →
     f.top + depth e < stackSize →
-    (match evalF z g.heap e with
-     | (h', .ok v) => ∃ k g' f', Runs k g f g' f' ∧ After f f' (f.pc + (compile e).length) v ∧ g'.cfg = g.cfg ∧ g'.heap = h'
+    (match evalF z env g.heap e with
+     | (h', .ok v) => ∃ k g' f', Runs k g f g' f' ∧ After f f' (f.pc + (compile e).length) v ∧ g'.cfg = g.cfg ∧ g'.heap = h' ∧
+         (∀ c, ctxAttrs g' c = ctxAttrs g c)
      | (h', .err m) => ∃ k g', Fails k g f g' m ∧ g'.heap = h'
      | _ => True) := by
   induction e with
   | lit i =>
-    intro g f hc hr hroom
+    intro g f hc hr henv hroom
     simp only [compile, depth] at hc hroom
     obtain ⟨hpc, hi⟩ := hc.head
     simp only [evalF, compile, List.length_singleton]
-    refine ⟨1, addOps g f.ctx 1, _, fun fuel => step_pushInt fuel g f i hpc hi hr.nolimit (by omega) hr.size, ?_, rfl, rfl⟩
+    refine ⟨1, addOps g f.ctx 1, _, fun fuel => step_pushInt fuel g f i hpc hi hr.nolimit (by omega) hr.size, ?_, rfl, rfl, by ctx_tac⟩
     exact ⟨rfl, rfl, rfl, rfl, set_get_same _ _ _ (by rw [hr.size]; omega), fun j hj => set_get_ne _ _ _ _ (by omega), set_size _ _ _⟩
   | bin op a b iha ihb =>
-    intro g f hc hr hroom
+    intro g f hc hr henv hroom
     simp only [compile, depth] at hc hroom
     have hca : CodeAt f.code f.pc (compile a) := hc.append_left.append_left
     have hcb : CodeAt f.code (f.pc + (compile a).length) (compile b) := hc.append_left.append_right
     have hcop := hc.append_right
-    have ha := iha g f hca hr (by omega)
+    have ha := iha g f hca hr henv (by omega)
     simp only [evalF]
-    cases hea : evalF z g.heap a with
+    cases hea : evalF z env g.heap a with
     | mk h1 ra =>
       rw [hea] at ha
       cases ra with
       | ok va =>
-        obtain ⟨k1, g1, f1, hrun1, haft1, hcfg1, hheap1⟩ := ha
+        obtain ⟨k1, g1, f1, hrun1, haft1, hcfg1, hheap1, hctx1⟩ := ha
         have hr1 : Ready z g1 f1 := ⟨by rw [hcfg1]; exact hr.nolimit, by rw [hcfg1]; exact hr.div0, by rw [haft1.size]; exact hr.size⟩
-        have hb := ihb g1 f1 (by rw [haft1.code, haft1.pc]; exact hcb) hr1 (by rw [haft1.top]; omega)
+        have hb := ihb g1 f1 (by rw [haft1.code, haft1.pc]; exact hcb) hr1 (by rw [hctx1, haft1.ctx]; exact henv) (by rw [haft1.top]; omega)
         rw [hheap1] at hb
         simp only
-        cases heb : evalF z h1 b with
+        cases heb : evalF z env h1 b with
         | mk h2 rb =>
           rw [heb] at hb
           cases rb with
           | ok vb =>
-            obtain ⟨k2, g2, f2, hrun2, haft2, hcfg2, hheap2⟩ := hb
+            obtain ⟨k2, g2, f2, hrun2, haft2, hcfg2, hheap2, hctx2⟩ := hb
             simp only
             -- the operator instruction
             have hpc2 : f2.pc = f.pc + (compile a).length + (compile b).length := by rw [haft2.pc, haft1.pc]
@@ -137,7 +145,7 @@ theorem run_compile (z : Bool) (e : F) : ∀ (g : G) (f : Frame), CodeAt f.code 
               | ok v =>
                 have hstep := fun fuel => step_bin_ok fuel g2 f2 op h3 v hpcI' hI' hl2 (by omega) hs2 (by omega)
                   (by rw [hva, hvb, hheap2, hz2]; exact hbo)
-                refine ⟨1 + (k2 + k1), _, _, (hrun1.trans hrun2).trans (fun fuel => hstep fuel), ?_, ?_, rfl⟩
+                refine ⟨1 + (k2 + k1), _, _, (hrun1.trans hrun2).trans (fun fuel => hstep fuel), ?_, ?_, rfl, by ctx_tac⟩
                 · refine ⟨hcode2, by simp only; rw [haft2.ctx, haft1.ctx], ?_, by simp only; omega, ?_, ?_, ?_⟩
                   · simp only [hpc2, compile, List.length_append, List.length_singleton]; omega
                   · have : f2.top - 2 = f.top := by omega
@@ -169,18 +177,18 @@ theorem run_compile (z : Bool) (e : F) : ∀ (g : G) (f : Frame), CodeAt f.code 
       | unsup _ => trivial
       | diverge => trivial
   | neg a iha =>
-    intro g f hc hr hroom
+    intro g f hc hr henv hroom
     simp only [compile, depth] at hc hroom
     have hca : CodeAt f.code f.pc (compile a) := hc.append_left
     have hcop := hc.append_right
-    have ha := iha g f hca hr hroom
+    have ha := iha g f hca hr henv hroom
     simp only [evalF]
-    cases hea : evalF z g.heap a with
+    cases hea : evalF z env g.heap a with
     | mk h1 ra =>
       rw [hea] at ha
       cases ra with
       | ok va =>
-        obtain ⟨k1, g1, f1, hrun1, haft1, hcfg1, hheap1⟩ := ha
+        obtain ⟨k1, g1, f1, hrun1, haft1, hcfg1, hheap1, hctx1⟩ := ha
         obtain ⟨hpcI, hI⟩ := hcop.head
         have hpcI' : f1.pc < f1.code.size := by rw [haft1.code, haft1.pc]; exact hpcI
         have hI' : f1.code[f1.pc]! = .neg := by rw [haft1.code, haft1.pc]; exact hI
@@ -194,7 +202,7 @@ theorem run_compile (z : Bool) (e : F) : ∀ (g : G) (f : Frame), CodeAt f.code 
         cases hn : opNeg va with
         | some r =>
           have hstep := fun fuel => step_neg_ok fuel g1 f1 r hpcI' hI' hl1 (by rw [haft1.top]; omega) hs1 (by rw [haft1.top]; omega) (by rw [hva]; exact hn)
-          refine ⟨1 + k1, _, _, hrun1.trans (fun fuel => hstep fuel), ?_, by simp only [addOps_cfg]; exact hcfg1, by simp only [addOps_heap]; exact hheap1⟩
+          refine ⟨1 + k1, _, _, hrun1.trans (fun fuel => hstep fuel), ?_, by simp only [addOps_cfg]; exact hcfg1, by simp only [addOps_heap]; exact hheap1, by ctx_tac⟩
           have ht : f1.top - 1 = f.top := by rw [haft1.top]; omega
           refine ⟨haft1.code, haft1.ctx, ?_, by simp only; rw [haft1.top], ?_, ?_, by simp only; rw [set_size, haft1.size]⟩
           · simp only [haft1.pc, compile, List.length_append, List.length_singleton]; omega
@@ -210,7 +218,7 @@ theorem run_compile (z : Bool) (e : F) : ∀ (g : G) (f : Frame), CodeAt f.code 
       | unsup _ => trivial
       | diverge => trivial
   | tern c a b ihc iha ihb =>
-    intro g f hc hr hroom
+    intro g f hc hr henv hroom
     simp only [compile, depth] at hc hroom
     -- code layout: C ++ [jne (la+1)] ++ A ++ [jmp lb] ++ B
     have hcc : CodeAt f.code f.pc (compile c) := hc.append_left.append_left.append_left.append_left
@@ -219,14 +227,14 @@ theorem run_compile (z : Bool) (e : F) : ∀ (g : G) (f : Frame), CodeAt f.code 
     have hcjmp := hc.append_left.append_right
     have hcb := hc.append_right
     simp only [List.length_append, List.length_singleton, ← Nat.add_assoc] at hca hcjmp hcb
-    have hcv := ihc g f hcc hr (by omega)
+    have hcv := ihc g f hcc hr henv (by omega)
     simp only [evalF]
-    cases hec : evalF z g.heap c with
+    cases hec : evalF z env g.heap c with
     | mk h1 rc =>
       rw [hec] at hcv
       cases rc with
       | ok vc =>
-        obtain ⟨k1, g1, f1, hrun1, haft1, hcfg1, hheap1⟩ := hcv
+        obtain ⟨k1, g1, f1, hrun1, haft1, hcfg1, hheap1, hctx1⟩ := hcv
         obtain ⟨hpcJ, hJ⟩ := hcjne.head
         have hpcJ' : f1.pc < f1.code.size := by rw [haft1.code, haft1.pc]; exact hpcJ
         have hJ' : f1.code[f1.pc]! = .jne (some (((compile a).length + 1 : Nat) : Int)) := by
@@ -249,14 +257,14 @@ theorem run_compile (z : Bool) (e : F) : ∀ (g : G) (f : Frame), CodeAt f.code 
             intro fuel; rw [hstepJ fuel, hvc, hcond]; rfl
           have hrA : Ready z (addOps g1 f1.ctx 1) fA := ⟨hl1, by simp only [addOps_cfg]; rw [hcfg1]; exact hr.div0, hs1⟩
           have hAt : fA.top = f.top := by simp only [fA]; rw [haft1.top]; omega
-          have hav := iha (addOps g1 f1.ctx 1) fA (by simp only [fA]; rw [haft1.code, haft1.pc]; exact hca) hrA (by rw [hAt]; omega)
+          have hav := iha (addOps g1 f1.ctx 1) fA (by simp only [fA]; rw [haft1.code, haft1.pc]; exact hca) hrA (by simp only [fA]; rw [ctxAttrs_addOps, hctx1, haft1.ctx]; exact henv) (by rw [hAt]; omega)
           simp only [addOps_heap] at hav
-          cases hea : evalF z g1.heap a with
+          cases hea : evalF z env g1.heap a with
           | mk h2 ra =>
             rw [hea] at hav
             cases ra with
             | ok va =>
-              obtain ⟨k2, g2, f2, hrun2, haft2, hcfg2, hheap2⟩ := hav
+              obtain ⟨k2, g2, f2, hrun2, haft2, hcfg2, hheap2, hctx2⟩ := hav
               simp only
               obtain ⟨hpcM, hM⟩ := hcjmp.head
               have hpc2 : f2.pc = f.pc + (compile c).length + 1 + (compile a).length := by rw [haft2.pc]; simp only [fA]; rw [haft1.pc]
@@ -267,7 +275,7 @@ theorem run_compile (z : Bool) (e : F) : ∀ (g : G) (f : Frame), CodeAt f.code 
               have hda := depth_pos a
               have hstepM := fun fuel => step_jmp fuel g2 f2 (compile b).length hpcM' hM' hl2 (by rw [haft2.top, hAt]; omega)
               refine ⟨1 + (k2 + (1 + k1)), _, _, ((hrun1.trans hrunJ).trans hrun2).trans (fun fuel => hstepM fuel), ?_,
-                by simp only [addOps_cfg]; rw [hcfg2]; simp only [addOps_cfg]; exact hcfg1, by simp only [addOps_heap]; exact hheap2⟩
+                by simp only [addOps_cfg]; rw [hcfg2]; simp only [addOps_cfg]; exact hcfg1, by simp only [addOps_heap]; exact hheap2, by ctx_tac⟩
               refine ⟨hcode2, by simp only; rw [haft2.ctx]; exact haft1.ctx, ?_, by simp only; rw [haft2.top, hAt], ?_, ?_, by simp only; rw [haft2.size]; exact haft1.size⟩
               · simp only [hpc2, compile, List.length_append, List.length_singleton]; omega
               · simp only; rw [← hAt]; exact haft2.val
@@ -287,16 +295,16 @@ theorem run_compile (z : Bool) (e : F) : ∀ (g : G) (f : Frame), CodeAt f.code 
           have hrB : Ready z (addOps g1 f1.ctx 1) fB := ⟨hl1, by simp only [addOps_cfg]; rw [hcfg1]; exact hr.div0, hs1⟩
           have hBt : fB.top = f.top := by simp only [fB]; rw [haft1.top]; omega
           have hpcB : fB.pc = f.pc + (compile c).length + 1 + (compile a).length + 1 := by simp only [fB]; rw [haft1.pc]; omega
-          have hbv := ihb (addOps g1 f1.ctx 1) fB (by rw [hpcB]; simp only [fB]; rw [haft1.code]; exact hcb) hrB (by rw [hBt]; omega)
+          have hbv := ihb (addOps g1 f1.ctx 1) fB (by rw [hpcB]; simp only [fB]; rw [haft1.code]; exact hcb) hrB (by simp only [fB]; rw [ctxAttrs_addOps, hctx1, haft1.ctx]; exact henv) (by rw [hBt]; omega)
           simp only [addOps_heap] at hbv
-          cases heb : evalF z g1.heap b with
+          cases heb : evalF z env g1.heap b with
           | mk h2 rb =>
             rw [heb] at hbv
             cases rb with
             | ok vb =>
-              obtain ⟨k2, g2, f2, hrun2, haft2, hcfg2, hheap2⟩ := hbv
+              obtain ⟨k2, g2, f2, hrun2, haft2, hcfg2, hheap2, hctx2⟩ := hbv
               simp only
-              refine ⟨k2 + (1 + k1), g2, f2, (hrun1.trans hrunJ).trans hrun2, ?_, by rw [hcfg2]; simp only [addOps_cfg]; exact hcfg1, hheap2⟩
+              refine ⟨k2 + (1 + k1), g2, f2, (hrun1.trans hrunJ).trans hrun2, ?_, by rw [hcfg2]; simp only [addOps_cfg]; exact hcfg1, hheap2, by ctx_tac⟩
               refine ⟨by rw [haft2.code]; exact haft1.code, by rw [haft2.ctx]; exact haft1.ctx, ?_, by rw [haft2.top, hBt], ?_, ?_, by rw [haft2.size]; exact haft1.size⟩
               · rw [haft2.pc, hpcB]; simp only [compile, List.length_append, List.length_singleton]; omega
               · rw [← hBt]; exact haft2.val
@@ -314,7 +322,7 @@ theorem run_compile (z : Bool) (e : F) : ∀ (g : G) (f : Frame), CodeAt f.code 
       | unsup _ => trivial
       | diverge => trivial
   | lor a b iha ihb =>
-    intro g f hc hr hroom
+    intro g f hc hr henv hroom
     simp only [compile, depth] at hc hroom
     -- code layout: A ++ [je.dup (lb+2)] ++ B ++ [je.dup 1] ++ [push.last]
     have hca : CodeAt f.code f.pc (compile a) := hc.append_left.append_left.append_left.append_left
@@ -323,14 +331,14 @@ theorem run_compile (z : Bool) (e : F) : ∀ (g : G) (f : Frame), CodeAt f.code 
     have hcj2 := hc.append_left.append_right
     have hcpl := hc.append_right
     simp only [List.length_append, List.length_singleton, ← Nat.add_assoc] at hcb hcj2 hcpl
-    have hav := iha g f hca hr (by omega)
+    have hav := iha g f hca hr henv (by omega)
     simp only [evalF]
-    cases hea : evalF z g.heap a with
+    cases hea : evalF z env g.heap a with
     | mk h1 ra =>
       rw [hea] at hav
       cases ra with
       | ok va =>
-        obtain ⟨k1, g1, f1, hrun1, haft1, hcfg1, hheap1⟩ := hav
+        obtain ⟨k1, g1, f1, hrun1, haft1, hcfg1, hheap1, hctx1⟩ := hav
         obtain ⟨hpcJ, hJ⟩ := hcj1.head
         have hpcJ' : f1.pc < f1.code.size := by rw [haft1.code, haft1.pc]; exact hpcJ
         have hJ' : f1.code[f1.pc]! = .jeDup (some (((compile b).length + 2 : Nat) : Int)) := by
@@ -350,7 +358,7 @@ theorem run_compile (z : Bool) (e : F) : ∀ (g : G) (f : Frame), CodeAt f.code 
           have hrunJ : Runs 1 g1 f1 (addOps g1 f1.ctx 1)
               { f1 with pc := f1.pc + 1 + ((compile b).length + 2), stack := f1.stack.set! (f1.top - 1) (f1.stack[f1.top - 1]!), top := f1.top, lastPop := .slot (f1.top - 1) } := by
             intro fuel; rw [hstepJ fuel, hva, hcond]; simp only [if_true]
-          refine ⟨1 + k1, _, _, hrun1.trans hrunJ, ?_, by simp only [addOps_cfg]; exact hcfg1, by simp only [addOps_heap]⟩
+          refine ⟨1 + k1, _, _, hrun1.trans hrunJ, ?_, by simp only [addOps_cfg]; exact hcfg1, by simp only [addOps_heap], by ctx_tac⟩
           refine ⟨haft1.code, haft1.ctx, ?_, by simp only; rw [haft1.top], ?_, ?_, by simp only; rw [set_size]; exact haft1.size⟩
           · simp only [haft1.pc, compile, List.length_append, List.length_singleton]; omega
           · simp only [ht1]; rw [set_get_same _ _ _ (by rw [hs1]; omega)]; exact haft1.val
@@ -363,14 +371,14 @@ theorem run_compile (z : Bool) (e : F) : ∀ (g : G) (f : Frame), CodeAt f.code 
           have hrB : Ready z (addOps g1 f1.ctx 1) fB := ⟨hl1, by simp only [addOps_cfg]; rw [hcfg1]; exact hr.div0, hs1⟩
           have hBt : fB.top = f.top := ht1
           have hpcB : fB.pc = f.pc + (compile a).length + 1 := by simp only [fB]; rw [haft1.pc]
-          have hbv := ihb (addOps g1 f1.ctx 1) fB (by rw [hpcB]; simp only [fB]; rw [haft1.code]; exact hcb) hrB (by rw [hBt]; omega)
+          have hbv := ihb (addOps g1 f1.ctx 1) fB (by rw [hpcB]; simp only [fB]; rw [haft1.code]; exact hcb) hrB (by simp only [fB]; rw [ctxAttrs_addOps, hctx1, haft1.ctx]; exact henv) (by rw [hBt]; omega)
           simp only [addOps_heap] at hbv
-          cases heb : evalF z g1.heap b with
+          cases heb : evalF z env g1.heap b with
           | mk h2 rb =>
             rw [heb] at hbv
             cases rb with
             | ok vb =>
-              obtain ⟨k2, g2, f2, hrun2, haft2, hcfg2, hheap2⟩ := hbv
+              obtain ⟨k2, g2, f2, hrun2, haft2, hcfg2, hheap2, hctx2⟩ := hbv
               simp only
               have hcode2 : f2.code = f.code := by rw [haft2.code]; exact haft1.code
               have hpc2 : f2.pc = f.pc + (compile a).length + 1 + (compile b).length := by rw [haft2.pc, hpcB]
@@ -391,7 +399,7 @@ theorem run_compile (z : Bool) (e : F) : ∀ (g : G) (f : Frame), CodeAt f.code 
                     { f2 with pc := f2.pc + 1 + 1, stack := f2.stack.set! (f2.top - 1) (f2.stack[f2.top - 1]!), top := f2.top, lastPop := .slot (f2.top - 1) } := by
                   intro fuel; rw [hstepK fuel, hvb, hcond2]; simp only [if_true]
                 refine ⟨1 + (k2 + (1 + k1)), _, _, ((hrun1.trans hrunJ).trans hrun2).trans hrunK, ?_,
-                  by simp only [addOps_cfg]; rw [hcfg2]; simp only [addOps_cfg]; exact hcfg1, by simp only [addOps_heap]; exact hheap2⟩
+                  by simp only [addOps_cfg]; rw [hcfg2]; simp only [addOps_cfg]; exact hcfg1, by simp only [addOps_heap]; exact hheap2, by ctx_tac⟩
                 refine ⟨hcode2, by simp only; rw [haft2.ctx]; exact haft1.ctx, ?_, by simp only; rw [haft2.top, hBt], ?_, ?_, by simp only; rw [set_size, hs2]; exact hr.size.symm⟩
                 · simp only [hpc2, compile, List.length_append, List.length_singleton]; omega
                 · simp only [ht2]; rw [set_get_same _ _ _ (by rw [hs2]; omega), ← hBt]; exact haft2.val
@@ -406,7 +414,7 @@ theorem run_compile (z : Bool) (e : F) : ∀ (g : G) (f : Frame), CodeAt f.code 
                 have hstepP := fun fuel => step_pushLast fuel (addOps g2 f2.ctx 1) fP (f2.top - 1) hpcP' hP' hl2
                   (by simp only [fP]; rw [haft2.top, hBt]; omega) hs2 rfl
                 refine ⟨1 + (1 + (k2 + (1 + k1))), _, _, (((hrun1.trans hrunJ).trans hrun2).trans hrunK).trans (fun fuel => hstepP fuel), ?_,
-                  by simp only [addOps_cfg]; rw [hcfg2]; simp only [addOps_cfg]; exact hcfg1, by simp only [addOps_heap]; exact hheap2⟩
+                  by simp only [addOps_cfg]; rw [hcfg2]; simp only [addOps_cfg]; exact hcfg1, by simp only [addOps_heap]; exact hheap2, by ctx_tac⟩
                 have hPt : fP.top = f.top := ht2
                 refine ⟨hcode2, by simp only [fP]; rw [haft2.ctx]; exact haft1.ctx, ?_, by simp only [hPt], ?_, ?_, by simp only [fP]; rw [set_size, hs2]; exact hr.size.symm⟩
                 · simp only [fP, hpc2, compile, List.length_append, List.length_singleton]; omega
@@ -430,29 +438,29 @@ theorem run_compile (z : Bool) (e : F) : ∀ (g : G) (f : Frame), CodeAt f.code 
       | unsup _ => trivial
       | diverge => trivial
   | land a b iha ihb =>
-    intro g f hc hr hroom
+    intro g f hc hr henv hroom
     simp only [compile, depth] at hc hroom
     have hca : CodeAt f.code f.pc (compile a) := hc.append_left.append_left
     have hcb : CodeAt f.code (f.pc + (compile a).length) (compile b) := hc.append_left.append_right
     have hcop := hc.append_right
-    have ha := iha g f hca hr (by omega)
+    have ha := iha g f hca hr henv (by omega)
     simp only [evalF]
-    cases hea : evalF z g.heap a with
+    cases hea : evalF z env g.heap a with
     | mk h1 ra =>
       rw [hea] at ha
       cases ra with
       | ok va =>
-        obtain ⟨k1, g1, f1, hrun1, haft1, hcfg1, hheap1⟩ := ha
+        obtain ⟨k1, g1, f1, hrun1, haft1, hcfg1, hheap1, hctx1⟩ := ha
         have hr1 : Ready z g1 f1 := ⟨by rw [hcfg1]; exact hr.nolimit, by rw [hcfg1]; exact hr.div0, by rw [haft1.size]; exact hr.size⟩
-        have hb := ihb g1 f1 (by rw [haft1.code, haft1.pc]; exact hcb) hr1 (by rw [haft1.top]; omega)
+        have hb := ihb g1 f1 (by rw [haft1.code, haft1.pc]; exact hcb) hr1 (by rw [hctx1, haft1.ctx]; exact henv) (by rw [haft1.top]; omega)
         rw [hheap1] at hb
         simp only
-        cases heb : evalF z h1 b with
+        cases heb : evalF z env h1 b with
         | mk h2 rb =>
           rw [heb] at hb
           cases rb with
           | ok vb =>
-            obtain ⟨k2, g2, f2, hrun2, haft2, hcfg2, hheap2⟩ := hb
+            obtain ⟨k2, g2, f2, hrun2, haft2, hcfg2, hheap2, hctx2⟩ := hb
             simp only
             have hpc2 : f2.pc = f.pc + (compile a).length + (compile b).length := by rw [haft2.pc, haft1.pc]
             have hcode2 : f2.code = f.code := by rw [haft2.code, haft1.code]
@@ -471,7 +479,7 @@ theorem run_compile (z : Bool) (e : F) : ∀ (g : G) (f : Frame), CodeAt f.code 
             have hl2 : g2.cfg.opLimit = 0 := by rw [hcfg2, hcfg1]; exact hr.nolimit
             have hstep := fun fuel => step_logicAnd fuel g2 f2 hpcI' hI' hl2 (by omega) hs2 (by omega)
             refine ⟨1 + (k2 + k1), _, _, (hrun1.trans hrun2).trans (fun fuel => hstep fuel), ?_, by simp only [addOps_cfg]; rw [hcfg2, hcfg1],
-              by simp only [addOps_heap]; exact hheap2⟩
+              by simp only [addOps_heap]; exact hheap2, by ctx_tac⟩
             have ht : f2.top - 2 = f.top := by omega
             refine ⟨hcode2, by simp only; rw [haft2.ctx, haft1.ctx], ?_, by simp only; omega, ?_, ?_, by simp only; rw [set_size, haft2.size, haft1.size]⟩
             · simp only [hpc2, compile, List.length_append, List.length_singleton]; omega
@@ -486,6 +494,61 @@ theorem run_compile (z : Bool) (e : F) : ∀ (g : G) (f : Frame), CodeAt f.code 
           | panic _ => trivial
           | unsup _ => trivial
           | diverge => trivial
+      | err m =>
+        obtain ⟨k1, g1, hf1, hheap1⟩ := ha
+        exact ⟨k1, g1, hf1, hheap1⟩
+      | panic _ => trivial
+      | unsup _ => trivial
+      | diverge => trivial
+
+  | var n b e =>
+    intro g f hc hr henv hroom
+    simp only [compile, depth] at hc hroom
+    obtain ⟨hpc0, hi0⟩ := hc.head
+    have h1 := hc.2 1 (by simp)
+    have hpc1 : f.pc + 1 < f.code.size := by have := hc.1; simp at this; omega
+    simp only [evalF, compile, List.length_cons, List.length_nil]
+    cases hv : dictGet (g.heap.dictOf env) n with
+    | none => trivial
+    | some v =>
+      simp only
+      cases hp : isPlain v with
+      | false => simp
+      | true =>
+        simp only [if_true]
+        have hds := fun fuel => step_var fuel g f n b e v hpc1 hi0 (by simpa using h1) hr.nolimit (by omega) hr.size (by rw [henv]; exact hv) hp
+        refine ⟨2, _, _, hds, ?_, rfl, rfl, by ctx_tac⟩
+        exact ⟨rfl, rfl, rfl, rfl, set_get_same _ _ _ (by rw [hr.size]; omega), fun j hj => set_get_ne _ _ _ _ (by omega), set_size _ _ _⟩
+  | asg n a iha =>
+    intro g f hc hr henv hroom
+    simp only [compile, depth] at hc hroom
+    have hca : CodeAt f.code f.pc (compile a) := hc.append_left
+    have hcop := hc.append_right
+    have ha := iha g f hca hr henv hroom
+    simp only [evalF]
+    cases hea : evalF z env g.heap a with
+    | mk h1 ra =>
+      rw [hea] at ha
+      cases ra with
+      | ok va =>
+        obtain ⟨k1, g1, f1, hrun1, haft1, hcfg1, hheap1, hctx1⟩ := ha
+        obtain ⟨hpcI, hI⟩ := hcop.head
+        have hpcI' : f1.pc < f1.code.size := by rw [haft1.code, haft1.pc]; exact hpcI
+        have hI' : f1.code[f1.pc]! = .store n := by rw [haft1.code, haft1.pc]; exact hI
+        have hl1 : g1.cfg.opLimit = 0 := by rw [hcfg1]; exact hr.nolimit
+        have hda := depth_pos a
+        have hva : f1.stack[f1.top - 1]! = va := by
+          have : f1.top - 1 = f.top := by rw [haft1.top]; omega
+          rw [this, haft1.val]
+        have hstep := fun fuel => step_store fuel g1 f1 n hpcI' hI' hl1 (by rw [haft1.top]; omega) (by rw [haft1.top]; omega)
+        simp only
+        refine ⟨1 + k1, _, _, hrun1.trans (fun fuel => hstep fuel), ?_, ?_, ?_, ?_⟩
+        · exact ⟨haft1.code, haft1.ctx, by simp only [haft1.pc, compile, List.length_append, List.length_singleton]; omega,
+            haft1.top, haft1.val, haft1.below, haft1.size⟩
+        · simp only [storeName, attrsStore, addOps_cfg]; exact hcfg1
+        · simp only [storeName, attrsStore, addOps_heap, ctxAttrs_addOps, hva, hheap1]
+          rw [hctx1, haft1.ctx, henv]
+        · intro c; simp only [storeName, attrsStore, ctxAttrs_heap, ctxAttrs_addOps, hctx1]
       | err m =>
         obtain ⟨k1, g1, hf1, hheap1⟩ := ha
         exact ⟨k1, g1, hf1, hheap1⟩
